@@ -280,10 +280,7 @@ def _k_zone(c) -> CaseInfo:
     spec = c["spec"]
     if not c04._valid_spec(spec) or any(p["end"] % 100 for p in spec["periods"]):
         raise InvalidCase
-    try:
-        z = c04.build_synthetic(spec)
-    except (ValueError, RuntimeError):
-        return CaseInfo(False, "zone:rejected-by-constructor")
+    z = c04.build_synthetic(spec)  # a spec inside the constructive domain always builds (see C04)
     pool: list[str] = []
     buf, w = writer(pool)
     z._write(w)
